@@ -18,6 +18,12 @@ pub enum Ev {
   Run(u16),
   /// guest block at this address in bank 0 performs the register write
   Write { block: u16, name: String },
+  /// the same register write performed by code running from work RAM (interpreted in every
+  /// build: no translated block runs between the switch and the next lookup)
+  WriteFromRam { reg: u16, value: u8, name: String },
+  /// the register write made through the bus between two blocks (what an interrupt dispatch
+  /// with SP in the register area, or a debugger, does)
+  Poke { reg: u16, value: u8, name: String },
 }
 
 pub struct Ctl {
@@ -63,6 +69,8 @@ pub fn world_for(c: &Ctl) -> (Vec<Ev>, Vec<u8>) {
       }
       c2.extend_from_slice(&[0x78, 0xEA, b as u8, 0xC2, 0x18, 0x00]); // LD A,B; LD (C2bb),A; JR +0
       img[base + 0x100..base + 0x100 + c2.len()].copy_from_slice(&c2);
+      // a one-byte block on the very last address of the bank, different in every bank
+      img[base + 0x3FFF] = [0xC7u8, 0xCF, 0xD7, 0xDF][b % 4]; // RST 00 / 08 / 10 / 18
     }
   }
   // bank 0: common block at 0x0150, which also reads *data* from the switchable bank by an
@@ -74,7 +82,17 @@ pub fn world_for(c: &Ctl) -> (Vec<Ev>, Vec<u8>) {
   for a in 0x3FFA..0x4000 {
     img[a] = 0x0C; // INC C
   }
-  let mut evs: Vec<Ev> = vec![Ev::Run(0x0150), Ev::Run(0x4000), Ev::Run(0x4100), Ev::Run(0x3FFA)];
+  if c.banks < 128 {
+    // on the small images bank 0 itself can be mapped at 0x4000-0x7FFF: its last byte must end
+    // a block too
+    img[0x3FFF] = 0xC7;
+  } else {
+    // the block at 0x3FFA ends with an instruction that straddles the boundary: LD HL,nn with
+    // its opcode on the last byte of the fixed bank and its operands (3E bb: the bank's
+    // number) in whatever bank is mapped
+    img[0x3FFF] = 0x21;
+  }
+  let mut evs: Vec<Ev> = vec![Ev::Run(0x0150), Ev::Run(0x4000), Ev::Run(0x4100), Ev::Run(0x3FFA), Ev::Run(0x7FFF)];
   let mut blocks: Vec<(u16, u8, String)> = Vec::new(); // (register address, value, name)
   let small = c.banks < 128;
   let bank_values: Vec<u8> = if small { vec![1, 2, c.banks as u8, c.banks as u8 + 1, 2 * c.banks as u8] } else { vec![0u8, 1, 2, 3, 5, 0x21, 0x45] };
@@ -99,6 +117,16 @@ pub fn world_for(c: &Ctl) -> (Vec<Ev>, Vec<u8>) {
     img[at..at + code.len()].copy_from_slice(&code);
     evs.push(Ev::Write { block: at as u16, name: name.clone() });
   }
+  // bank switches that no translated block performs
+  if small {
+    evs.push(Ev::WriteFromRam { reg: 0x2100, value: 2, name: "bank(02)@ram".to_string() });
+    evs.push(Ev::WriteFromRam { reg: 0x2100, value: c.banks as u8, name: format!("bank({:02x})@ram", c.banks) });
+    evs.push(Ev::Poke { reg: 0x2100, value: 1, name: "bank(01)@bus".to_string() });
+    evs.push(Ev::Poke { reg: 0x2100, value: 3, name: "bank(03)@bus".to_string() });
+  } else {
+    evs.push(Ev::WriteFromRam { reg: 0x2100, value: 2, name: "bank(02)@ram".to_string() });
+    evs.push(Ev::Poke { reg: 0x2100, value: 3, name: "bank(03)@bus".to_string() });
+  }
   let h = world::header_bytes(c.cart_type, c.rom_code, 0x02);
   img[0x100..0x150].copy_from_slice(&h[0x100..0x150]);
   (evs, img)
@@ -108,6 +136,8 @@ pub fn ev_name(e: &Ev) -> String {
   match e {
     Ev::Run(a) => format!("run({:04x})", a),
     Ev::Write { name, .. } => name.clone(),
+    Ev::WriteFromRam { name, .. } => name.clone(),
+    Ev::Poke { name, .. } => name.clone(),
   }
 }
 
@@ -119,6 +149,18 @@ fn apply(core: &mut crate::emulator::Core, e: &Ev) {
   let pc = match e {
     Ev::Run(a) => *a,
     Ev::Write { block, .. } => *block,
+    Ev::WriteFromRam { reg, value, .. } => {
+      // LD A,v; LD (reg),A; JP 0150 placed at 0xDE00 in work RAM and run there
+      let code = [0x3E, *value, 0xEA, (*reg & 0xff) as u8, (*reg >> 8) as u8, 0xC3, 0x50, 0x01];
+      for (i, b) in code.iter().enumerate() {
+        crate::cpustep::poke_raw(&mut core.memory, 0xDE00 + i as u16, *b);
+      }
+      0xDE00
+    },
+    Ev::Poke { reg, value, .. } => {
+      crate::mem::memory_write_byte(&mut core.memory as *mut crate::mem::MemoryAreas, *reg, *value);
+      return;
+    },
   };
   core.registers.ip = pc as u32;
   core.run_state = crate::emulator::RunState::Run;
